@@ -336,7 +336,9 @@ def forget(s):
     """Empty the stream's property memo so that the next read is computed from the present state.  (Whether the memo
     would have noticed the change is property C14; comparing the old and the new composition symbolically is what makes
     it expensive here.)"""
-    s._property_cache_key = (None, None)
+    key = s._property_cache_key
+    if isinstance(key, list): key[:] = (None, None)   # the key list may be shared with proxies: emptied in place
+    else: s._property_cache_key = (None, None)
     s._property_cache.clear()
 
 
